@@ -9,7 +9,11 @@ vars == <<phase, sizes, idlen, hist>>
 LD == <<254, 256, 256, 256, 256, 256, 255, 256, 256, 256, 253, 256, 256, 256, 256, 256, 254, 255, 254, 254, 256, 256, 256, 256, 256, 256, 256, 256, 255, 253, 256, 252, 254, 256, 256, 255, 256, 254, 256, 255>>
 P(i) == "p" \o ToString(i)
 \* ---- part 1 (exhaustive): all size sequences
-Init == phase = "sizes" /\ sizes = <<>> /\ idlen = 0 /\ hist = <<[o |-> "reset", mode |-> "ip4", maxnodes |-> 16]>>
+\* simulation starts from an empty table or from one that holds every pool peer its buckets can take (more than one answer may carry)
+FillOps == [i \in 1..40 |-> [o |-> "add_enr", rec |-> P(i) \o ":1:v4"]]
+Init == /\ phase = "sizes" /\ sizes = <<>> /\ idlen = 0
+        /\ hist \in {<<[o |-> "reset", mode |-> "ip4", maxnodes |-> 16]>>}
+                     \cup (IF DEPTH > 0 THEN {<<[o |-> "reset", mode |-> "ip4", maxnodes |-> mx]>> \o FillOps : mx \in {16, 4}} ELSE {})   \* 4: the cap is reached in a bucket that is not the last one asked for
 Grow == /\ phase = "sizes" /\ Len(sizes) < MAXRECS
         /\ \E s \in SIZES : sizes' = Append(sizes, s)
         /\ UNCHANGED <<phase, idlen, hist>>
@@ -32,5 +36,6 @@ Recs == [i \in 1..Len(sizes) |-> [id |-> P(i), dist |-> 256, size |-> sizes[i]]]
 Packets == Split(Recs, <<<<>>>>, 0)
 FitsInv == \A i \in 1..Len(Packets) : WireSize(idlen, [j \in 1..Len(Packets[i]) |-> Packets[i][j].size]) <= MAXPACKET
 AllSent == LET RECURSIVE Flat(_) Flat(q) == IF q = <<>> THEN <<>> ELSE Head(q) \o Flat(Tail(q)) IN Flat(Packets) = Recs
-Emit == DEPTH = 0 \/ Len(hist) <= DEPTH \/ PrintT(<<"REPLAY", ToJson(hist)>>)
+Base == IF Len(hist) >= 41 /\ SubSeq(hist, 2, 41) = FillOps THEN 40 ELSE 0
+Emit == DEPTH = 0 \/ Len(hist) <= DEPTH + Base \/ PrintT(<<"REPLAY", ToJson(hist)>>)
 =============================================================================
